@@ -902,7 +902,13 @@ class VmapBatchHandler:
 
         # Create new sampler with updated sample shape
         new_config = self.config.with_sample_shape(new_sample_shape)
-        result = create_sample_primitive(new_config)(*vector_args)
+        # Rebind with the site's own calling convention: keyword parameters stay
+        # keyword parameters (TFP constructors do not take them in flattening order).
+        call = jtu.tree_unflatten(
+            params["in_tree"], vector_args[params["num_consts"] :]
+        )
+        args, kwargs = call if params["yes_kwargs"] else (call, {})
+        result = create_sample_primitive(new_config)(*jtu.tree_leaves(args), **kwargs)
 
         # Return with appropriate output axes: lanes taken from batched parameters
         # come after the site's own sample dimensions.
